@@ -18,12 +18,16 @@ FUNCTIONS = ["wannierberri.system.interpolate.SystemInterpolator.__init__/interp
 BOUNDS = dict(quick=dict(num_wann="1..2", R_sets="pairs of R-vector sets (equal / subset / overlapping only at R=0), 3..5 vectors each", matrices="Ham, AA, SS (SS in one system only: excluded key); "
                          "SOC variant (nspin 1->1, 2->2, 1->2, 2->1): dV_soc_wann_*, overlap_up_down, Ham_SOC, SS + up/down subsystems", data="symbolic complex, X(-R)=X(R)^+", centres="symbolic",
                          alpha="symbolic real (and the constants 0, 1)", k="symbolic (one free unit-circle phase per R-vector), 1 k-point", use_pointgroup="-1, 0, 1"),
-              thorough=dict(num_wann="1..3", R_sets="as quick plus a set that is not closed under inversion, up to 7 vectors", matrices="as quick", data="symbolic complex",
-                            centres="symbolic", alpha="symbolic", k="symbolic, 2 k-points", use_pointgroup="-1, 0, 1"))
+              thorough=dict(num_wann="1..6", R_sets="as quick plus sets that are not (or only partly) closed under inversion, up to 13 vectors; three / four different R-sets in the chains",
+                            matrices="Ham, AA, BB, CC, SS, OO, GG, SA, SHA (0, 1 and 2 cartesian indices) with key sets that differ between the systems; SOC variant nb 1..3", data="symbolic complex",
+                            centres="symbolic", alpha="symbolic alpha and beta (and the constants 0, 1)", k="symbolic, 1..3 k-points", use_pointgroup="-1, 0, 1",
+                            compositions="two results of one interpolator alive at once, one of them modified in place; interpolation of an interpolated system with a third system "
+                                         "and of that with a fourth one at gamma = 1/4 (plain and SOC, nspin mixes 1/1/2, 2/1/2, 1/2/1, 2/2/2, 1/1/1, 2/2/1)"))
 EXPLANATION = ("Two System_R (or SystemSOC) objects are built on different R-vector sets with symbolic matrices and centres; the real SystemInterpolator is run with a symbolic alpha "
                "and with alpha=0, 1.  z3 decides, entry by entry, that every interpolated real-space matrix and the centres equal (1-alpha)*X0 + alpha*X1 on the union R-set with zero fill, "
                "that the end points equal the zero-filled inputs, and that H(k) / Xbar(.,der=0) of the end points (real Data_K_R / Data_K_soc on a k-list with symbolic k, i.e. one free "
-               "phase per R-vector) equal those of the original systems on their own R-sets.")
+               "phase per R-vector) equal those of the original systems on their own R-sets.  The thorough tier adds chains - interpolate(beta) of an interpolated system with a third system is the nested affine "
+               "combination, also in H(k) - and results alive at once: a result modified in place changes neither an earlier result nor later ones.")
 ASSUMPTIONS = ["both systems share lattice and num_wann (documented)", "matrices present in only one system are excluded (documented warning); checked as such"]
 OUTSIDE = ["k-derivatives (Xbar der>=1) of the interpolated system: interpolate() mixes wannier_centers_cart but leaves rvec.shifts_*_red at system0's values; the property as stated "
            "(Hamiltonian and matrices at every k) does not cover derivatives - recorded as an observation (note), not as a violation",
@@ -32,12 +36,14 @@ STUBS = ["grid stand-in with FFT=(1,1,1) for Data_K_R(k_list=...)", "UU_K = iden
 
 LAT = np.array([[1.0, 0, 0], [0.25, 1.5, 0], [0, 0.5, 2.0]])
 MODS = [SR, RV, FF, UT, IP, DKR, DK, SSOC, DKS, WSOC]
-CART = dict(Ham=(), AA=(3,), SS=(3,), dV_soc_wann_0_0=(3,), dV_soc_wann_1_1=(3,), dV_soc_wann_0_1=(3,), overlap_up_down=())
+CART = dict(Ham=(), AA=(3,), SS=(3,), BB=(3,), CC=(3,), OO=(3,), GG=(3, 3), SA=(3, 3), SHA=(3, 3), dV_soc_wann_0_0=(3,), dV_soc_wann_1_1=(3,), dV_soc_wann_0_1=(3,), overlap_up_down=())
 RSETS = dict(A=[(0, 0, 0), (1, 0, 0), (-1, 0, 0)],
              B=[(0, 0, 0), (0, 1, 0), (0, -1, 0), (1, 0, 0), (-1, 0, 0)],
              C=[(0, 1, -1), (0, 0, 0), (0, -1, 1)],
              D=[(1, 0, 0), (0, 0, 0), (0, 0, 1)],                       # not closed under inversion
-             E=[(0, 0, 0), (1, 1, 0), (-1, -1, 0), (0, 0, 1), (0, 0, -1), (1, 0, 0), (-1, 0, 0)])
+             E=[(0, 0, 0), (1, 1, 0), (-1, -1, 0), (0, 0, 1), (0, 0, -1), (1, 0, 0), (-1, 0, 0)],
+             F=[(0, 0, 0), (1, 0, 0), (-1, 0, 0), (0, 1, 0), (0, -1, 0), (0, 0, 1), (0, 0, -1), (1, 1, 0), (-1, -1, 0), (1, -1, 1), (-1, 1, -1), (2, 0, 0), (-2, 0, 0)],
+             G=[(0, 0, 0), (2, 0, 0), (0, -1, 1), (1, -1, 1), (-1, 1, -1)])           # partly closed under inversion
 
 
 # ------------------------------------------------------------------------------------------------------------
@@ -46,12 +52,12 @@ def arrays_for(spec):
     """symbolic inputs of a case"""
     nb = spec["nb"]
     A = {}
-    for w in (0, 1):
+    for w in range(len(spec["iR"])):
         iR = spec["iR"][w]
         A[f"c{w}"] = symvec(f"c{w}", (nb, 3))
         for key in spec["keys"][w]:
             A[f"X{w}_{key}"] = hermR(f"X{w}{key}", iR, nb, CART[key], hermitian=key != "dV_soc_wann_0_1" and key != "overlap_up_down")
-    A["alpha"] = sarr([SymC.var("alpha")])
+    A["alpha"] = sarr([SymC.var("alpha"), SymC.var("beta")][:2 if spec.get("chain") else 1])
     return A
 
 
@@ -140,7 +146,7 @@ def obligations(rec, spec, A, k, xp):
 def soc_arrays_for(spec):
     nb = spec["nb"]
     A = {}
-    for w in (0, 1):
+    for w in range(len(spec["iR"])):
         for ud, tag in enumerate(("u", "d")[:spec["nspin"][w]]):
             iR = spec["iRud"][w][ud]
             A[f"{tag}c{w}"] = symvec(f"{tag}c{w}", (nb, 3))
@@ -148,7 +154,7 @@ def soc_arrays_for(spec):
         iR = spec["iR"][w]
         for key in soc_keys(spec["nspin"][w]):
             A[f"X{w}_{key}"] = hermR(f"X{w}{key[-6:]}", iR, nb, CART[key], hermitian=key in ("dV_soc_wann_0_0", "dV_soc_wann_1_1"))
-    A["alpha"] = sarr([SymC.var("alpha")])
+    A["alpha"] = sarr([SymC.var("alpha"), SymC.var("beta")][:2 if spec.get("chain") else 1])
     A["angles"] = sarr([SymC.var("theta"), SymC.var("phi"), SymC.var("asoc")])
     return A
 
@@ -211,17 +217,131 @@ def soc_obligations(rec, spec, A, k, xp):
     rec.eq("SOC H_alpha(k) affine", H[2], (1 - al) * H[3] + al * H[4], key="SystemInterpolatorSOC H(k) not affine in alpha")
 
 
+
+# ------------------------------------------------------------------------------------------------------------
+# thorough tier: several results alive at once, and chains (interpolation of an interpolated system with a third one)
+def tl(iRvec):
+    return [tuple(int(x) for x in r) for r in iRvec]
+
+
+def chain_obligations(rec, spec, A, k, xp):
+    al, be = A["alpha"]
+    iRs, keys = spec["iR"], spec["keys"]
+    common01 = sorted(set(keys[0]) & set(keys[1]))
+    common = sorted(set(common01) & set(keys[2]))
+    cc = [A[f"c{w}"].dot(LAT) for w in range(3)]
+    ip01 = IP.SystemInterpolator(mk_system(spec, A, 0), mk_system(spec, A, 1), use_pointgroup=-1)
+    ra, rb = ip01.interpolate(al), ip01.interpolate(be)
+    iR01 = tl(ra.rvec.iRvec)
+    mix01 = lambda key, a, iRt: (1 - a) * zero_fill(A[f"X0_{key}"], iRs[0], iRt, xp) + a * zero_fill(A[f"X1_{key}"], iRs[1], iRt, xp)
+    for key in common01:
+        rec.eq(f"two results alive: {key}(alpha)", ra._XX_R[key], mix01(key, al, iR01), key="interpolate matrices not (1-alpha)*X0+alpha*X1")
+        rec.eq(f"two results alive: {key}(beta)", rb._XX_R[key], mix01(key, be, iR01), key="interpolate matrices not (1-alpha)*X0+alpha*X1")
+    # the second result is modified in place: neither the first result nor the interpolator may notice
+    for key in rb._XX_R:
+        rb._XX_R[key][...] = rb._XX_R[key] * 3 + 1
+    rb.wannier_centers_cart[...] = rb.wannier_centers_cart * 2 + 1
+    rb.rvec.shifts_left_red[...] = rb.rvec.shifts_left_red + 1
+    rc = ip01.interpolate(al)
+    for key in common01:
+        rec.eq(f"after modifying another result in place: {key}(alpha) of the first result unchanged", ra._XX_R[key], mix01(key, al, iR01), key="interpolate results share data with each other")
+        rec.eq(f"after modifying a result in place: a new interpolate(alpha) is unaffected ({key})", rc._XX_R[key], mix01(key, al, iR01), key="interpolate results share data with the interpolator")
+    rec.eq("after modifying another result in place: centres of the first result unchanged", ra.wannier_centers_cart, (1 - al) * cc[0] + al * cc[1], key="interpolate results share data with each other")
+    rec.eq("after modifying a result in place: centres of a new interpolate(alpha)", rc.wannier_centers_cart, (1 - al) * cc[0] + al * cc[1], key="interpolate results share data with the interpolator")
+    rec.eq("after modifying a result in place: shifts of a new interpolate(alpha) are system0's", rc.rvec.shifts_left_red, A["c0"], key="interpolate results share data with the interpolator")
+    # chain: interpolate the interpolated system with a third system
+    ip2 = IP.SystemInterpolator(ra, mk_system(spec, A, 2), use_pointgroup=-1)
+    r, e0, e1 = ip2.interpolate(be), ip2.interpolate(0.0), ip2.interpolate(1.0)
+    iRn = tl(r.rvec.iRvec)
+    union = sorted(set(map(tuple, iRs[0])) | set(map(tuple, iRs[1])) | set(map(tuple, iRs[2])))
+    rec.concrete("chain: R-set is the union of the three R-sets, each once", sorted(iRn) == union, detail=str(iRn), key="chained interpolation R-set is not the union")
+    rec.concrete("chain: exactly the matrices common to the three systems", all(sorted(e._XX_R) == common for e in (r, e0, e1)), detail=str(sorted(r._XX_R)), key="chained interpolation matrix set")
+    for key in common:
+        z2 = zero_fill(A[f"X2_{key}"], iRs[2], iRn, xp)
+        rec.eq(f"chain: {key}(alpha,beta) == (1-beta)((1-alpha)X0+alpha X1) + beta X2", r._XX_R[key], (1 - be) * mix01(key, al, iRn) + be * z2, key="chained interpolation is not the nested affine combination")
+        rec.eq(f"chain: {key}(alpha,0) == the intermediate system", e0._XX_R[key], mix01(key, al, iRn), key="chained interpolate(0) differs from the intermediate system")
+        rec.eq(f"chain: {key}(alpha,1) == system2", e1._XX_R[key], z2, key="chained interpolate(1) differs from system2")
+    rec.eq("chain: centres nested affine", r.wannier_centers_cart, (1 - be) * ((1 - al) * cc[0] + al * cc[1]) + be * cc[2], key="chained interpolation centres")
+    d = [datak(mk_system(spec, A, w), k) for w in range(3)]
+    dr, d1 = datak(r, k), datak(e1, k)
+    rec.eq("chain: H(k) == (1-beta)((1-alpha)H0+alpha H1) + beta H2 with H_i of the original systems on their own R-sets", dr.HH_K,
+           (1 - be) * ((1 - al) * d[0].HH_K + al * d[1].HH_K) + be * d[2].HH_K, key="chained interpolation H(k)")
+    rec.eq("chain: H(k) at beta=1 == H(k) of system2", d1.HH_K, d[2].HH_K, key="chained interpolate(1) H(k) differs from system2")
+    if len(iRs) == 4:
+        chain4(rec, spec, A, k, xp, r, al, be, d, cc)
+    for key in common:
+        rec.eq(f"chain: Xbar({key},0) nested affine", dr.Xbar(key, 0), (1 - be) * ((1 - al) * d[0].Xbar(key, 0) + al * d[1].Xbar(key, 0)) + be * d[2].Xbar(key, 0), key="chained interpolation Xbar(der=0)")
+
+
+def chain4(rec, spec, A, k, xp, r, al, be, d, cc):
+    """a third link: the twice interpolated system with a fourth system at the fixed ratio gamma = 1/4"""
+    iRs, keys = spec["iR"], spec["keys"]
+    ga = 0.25
+    common = sorted(set(keys[0]) & set(keys[1]) & set(keys[2]) & set(keys[3]))
+    r3 = IP.SystemInterpolator(r, mk_system(spec, A, 3), use_pointgroup=-1).interpolate(ga)
+    iRn = tl(r3.rvec.iRvec)
+    rec.concrete("chain of three: R-set is the union of the four R-sets", sorted(iRn) == sorted(set().union(*[set(map(tuple, x)) for x in iRs])), key="chained interpolation R-set is not the union")
+    rec.concrete("chain of three: exactly the matrices common to the four systems", sorted(r3._XX_R) == common, detail=str(sorted(r3._XX_R)), key="chained interpolation matrix set")
+    nest = lambda x: (1 - ga) * ((1 - be) * ((1 - al) * x[0] + al * x[1]) + be * x[2]) + ga * x[3]
+    for key in common:
+        rec.eq(f"chain of three: {key} nested affine", r3._XX_R[key], nest([zero_fill(A[f"X{w}_{key}"], iRs[w], iRn, xp) for w in range(4)]), key="chained interpolation is not the nested affine combination")
+    rec.eq("chain of three: centres nested affine", r3.wannier_centers_cart, nest(cc + [A["c3"].dot(LAT)]), key="chained interpolation centres")
+    d3 = datak(mk_system(spec, A, 3), k)
+    rec.eq("chain of three: H(k) nested affine in the H(k) of the four original systems", datak(r3, k).HH_K, nest([x.HH_K for x in d] + [d3.HH_K]), key="chained interpolation H(k)")
+
+
+def soc_chain_obligations(rec, spec, A, k, xp):
+    al, be = A["alpha"]
+    ns = spec["nspin"]
+    o = [mk_soc(spec, A, w) for w in range(3)]
+    ip01 = IP.SystemInterpolatorSOC(mk_soc(spec, A, 0), mk_soc(spec, A, 1), use_pointgroup=-1)
+    ra = ip01.interpolate(al)
+    ip2 = IP.SystemInterpolatorSOC(ra, mk_soc(spec, A, 2), use_pointgroup=-1)
+    r, e0, e1 = ip2.interpolate(be), ip2.interpolate(0.0), ip2.interpolate(1.0)
+    iRn = tl(r.rvec.iRvec)
+    union = sorted(set(map(tuple, spec["iR"][0])) | set(map(tuple, spec["iR"][1])) | set(map(tuple, spec["iR"][2])))
+    rec.concrete("SOC chain: R-set is the union of the three", sorted(iRn) == union, key="chained SystemInterpolatorSOC R-set is not the union")
+    keys = sorted((set(soc_keys(ns[0])) & set(soc_keys(ns[1])) & set(soc_keys(ns[2]))) | {"Ham_SOC", "SS"})
+    rec.concrete("SOC chain: exactly the common SOC matrices", sorted(r._XX_R) == keys, detail=str(sorted(r._XX_R)), key="chained SystemInterpolatorSOC matrix set")
+    nest = lambda x0, x1, x2: (1 - be) * ((1 - al) * x0 + al * x1) + be * x2
+    for key in keys:
+        z = [zero_fill(o[w]._XX_R[key], spec["iR"][w], iRn, xp) for w in range(3)]
+        rec.eq(f"SOC chain: {key} nested affine", r._XX_R[key], nest(*z), key="chained SystemInterpolatorSOC matrices")
+        rec.eq(f"SOC chain: {key}(alpha,1) == system2", e1._XX_R[key], z[2], key="chained SystemInterpolatorSOC interpolate(1) differs from system2")
+    nsn = max(ns)
+    rec.concrete("SOC chain: nspin", r.nspin == nsn and (nsn == 2 or r.system_down is r.system_up), detail=f"{r.nspin}", key="chained SystemInterpolatorSOC nspin")
+    for ud, tag in enumerate(("up", "down")[:nsn]):
+        iRw = [spec["iRud"][w][min(ud, ns[w] - 1)] for w in range(3)]
+        subw = [getattr(o[w], "system_" + tag) for w in range(3)]
+        sub = getattr(r, "system_" + tag)
+        iRs = tl(sub.rvec.iRvec)
+        rec.concrete(f"SOC chain system_{tag}: R-set is the union", sorted(iRs) == sorted(set(map(tuple, iRw[0])) | set(map(tuple, iRw[1])) | set(map(tuple, iRw[2]))), key="chained SystemInterpolatorSOC subsystem R-set")
+        rec.eq(f"SOC chain system_{tag}: Ham nested affine", sub._XX_R["Ham"], nest(*[zero_fill(subw[w]._XX_R["Ham"], iRw[w], iRs, xp) for w in range(3)]), key=f"chained SystemInterpolatorSOC system_{tag} Ham")
+        rec.eq(f"SOC chain system_{tag}: centres nested affine", sub.wannier_centers_cart, nest(*[subw[w].wannier_centers_cart for w in range(3)]), key=f"chained SystemInterpolatorSOC system_{tag} centres")
+    H = [datak(x, k, DKS.Data_K_soc).HH_K for x in (r, e0, e1, ra, o[0], o[1], o[2])]
+    rec.eq("SOC chain: H(k) nested affine in the H(k) of the three original systems", H[0], nest(H[4], H[5], H[6]), key="chained SystemInterpolatorSOC H(k)")
+    rec.eq("SOC chain: H(k) at beta=0 == intermediate system", H[1], H[3], key="chained SystemInterpolatorSOC interpolate(0) H(k)")
+    rec.eq("SOC chain: H(k) at beta=1 == system2", H[2], H[6], key="chained SystemInterpolatorSOC interpolate(1) H(k)")
+
+
+def pick(spec):
+    soc = "nspin" in spec
+    if spec.get("chain"):
+        return (soc_arrays_for, soc_chain_obligations) if soc else (arrays_for, chain_obligations)
+    return (soc_arrays_for, soc_obligations) if soc else (arrays_for, obligations)
+
+
 # ------------------------------------------------------------------------------------------------------------
 def case_interp(rec, spec):
     warnings.filterwarnings("ignore")
     shadow(MODS)
-    soc = "nspin" in spec
-    A = (soc_arrays_for if soc else arrays_for)(spec)
+    mkA, ob = pick(spec)
+    A = mkA(spec)
     k = symvec("k", (spec["nk"], 3))
 
     def body(rec):
         rec.witness = lambda env: dict(spec=spec, arrays={n: env.arr(a) for n, a in A.items()})
-        (soc_obligations if soc else obligations)(rec, spec, A, k, NpProxy())
+        ob(rec, spec, A, k, NpProxy())
     rec.explore(body, [])
 
 
@@ -236,11 +356,30 @@ def cases(tier, seed):
                 continue
             for pg in ((-1,) if (nb > 1 or (a, b) != ("A", "B")) else (-1, 0, 1)):
                 spec = dict(nb=nb, iR=[RSETS[a], RSETS[b]], keys=[k0, k1], use_pg=pg, nk=1 if q else 2)
-                out.append(Case(f"interp nb={nb} R={a}/{b} keys={'+'.join(k0)}/{'+'.join(k1)} pg={pg}", case_interp, dict(spec=spec), timeout=900))
+                out.append(Case(f"interp nb={nb} R={a}/{b} keys={'+'.join(k0)}/{'+'.join(k1)} pg={pg}", case_interp, dict(spec=spec), timeout=3000))
     for nspin in ([1, 1], [2, 2], [1, 2], [2, 1]):
-        for nb in ((1,) if q else (1, 2)):
+        for nb in ((1,) if q else (1, 2, 3)):
             spec = dict(nb=nb, nspin=nspin, iR=[RSETS["A"], RSETS["C"]], iRud=[[RSETS["A"], RSETS["B"]], [RSETS["B"], RSETS["C"]]], nk=1)
-            out.append(Case(f"interpSOC nspin={nspin[0]}->{nspin[1]} nb={nb}", case_interp, dict(spec=spec), timeout=900))
+            out.append(Case(f"interpSOC nspin={nspin[0]}->{nspin[1]} nb={nb}", case_interp, dict(spec=spec), timeout=3000))
+    if not q:
+        many0, many1, many2 = ["Ham", "AA", "BB", "CC", "SS", "GG", "SA"], ["Ham", "AA", "SS", "GG", "SA", "OO", "SHA"], ["GG", "Ham", "SA", "AA", "CC"]
+        for nb, (a, b) in ((1, ("F", "G")), (2, ("F", "E")), (2, ("G", "F")), (3, ("E", "G")), (4, ("B", "C")), (4, ("A", "E")), (3, ("F", "F")), (5, ("G", "B")), (6, ("A", "C")), (4, ("F", "G"))):
+            spec = dict(nb=nb, iR=[RSETS[a], RSETS[b]], keys=[many0, many1], use_pg=-1, nk=3 if nb < 3 else 1)
+            out.append(Case(f"interp nb={nb} R={a}/{b} keys={'+'.join(many0)}/{'+'.join(many1)}", case_interp, dict(spec=spec), timeout=3000))
+        for nb, trip in ((1, "ABC"), (1, "EDF"), (2, "ABC"), (2, "GFA"), (3, "CBE"), (2, "FFA"), (3, "ADG"), (4, "BCA"), (3, "FGE"), (5, "ACB")):
+            for ks in ((["Ham", "AA"], ["Ham", "AA", "SS"], ["AA", "Ham"]), (many0, many1, many2)):
+                spec = dict(nb=nb, iR=[RSETS[t] for t in trip], keys=list(ks), use_pg=-1, nk=2 if nb < 3 else 1, chain=True)
+                out.append(Case(f"chain+alive nb={nb} R={'/'.join(trip)} keys={'|'.join('+'.join(x) for x in ks)}", case_interp, dict(spec=spec), timeout=3000))
+        for nb, quad in ((1, "ABCE"), (2, "GFAD"), (3, "CBEA"), (2, "FEGB")):
+            for ks in ((["Ham", "AA"], ["Ham", "AA", "SS"], ["AA", "Ham"], ["Ham", "AA", "BB"]), (many0, many1, many2, ["SA", "AA", "Ham", "GG", "BB"])):
+                spec = dict(nb=nb, iR=[RSETS[t] for t in quad], keys=list(ks), use_pg=-1, nk=1, chain=True)
+                out.append(Case(f"chain of three nb={nb} R={'/'.join(quad)} keys={'|'.join('+'.join(x) for x in ks)}", case_interp, dict(spec=spec), timeout=3000))
+        for nspin in ([1, 1, 2], [2, 1, 2], [1, 2, 1], [2, 2, 2], [1, 1, 1], [2, 2, 1]):
+            for nb in (1, 2, 3):
+                if nb == 3 and nspin not in ([2, 1, 2], [1, 2, 1]):
+                    continue
+                spec = dict(nb=nb, nspin=nspin, iR=[RSETS["A"], RSETS["C"], RSETS["B"]], iRud=[[RSETS["A"], RSETS["B"]], [RSETS["B"], RSETS["C"]], [RSETS["E"], RSETS["A"]]], nk=1, chain=True)
+                out.append(Case(f"chainSOC nspin={'->'.join(map(str, nspin))} nb={nb}", case_interp, dict(spec=spec), timeout=3000))
     return out
 
 
@@ -268,7 +407,7 @@ class NumRec:
         pass
 
 
-KREPLAY = np.array([[0.1234, -0.3217, 0.4561], [0.377, 0.291, -0.113]])
+KREPLAY = np.array([[0.1234, -0.3217, 0.4561], [0.377, 0.291, -0.113], [-0.2113, 0.0719, 0.3307]])
 
 
 def replay(rec):
@@ -279,7 +418,7 @@ def replay(rec):
     A = {n: unarr(a) for n, a in w["arrays"].items()}
     if all(np.abs(a).max(initial=0) == 0 for n, a in A.items()):
         rng = np.random.default_rng(1)
-        full = (soc_arrays_for if "nspin" in spec else arrays_for)(spec)
+        full = pick(spec)[0](spec)
         # an exception path leaves all atoms free: use a generic point of the input space (hermitian structure kept by evaluating the symbolic arrays)
         from symx.harness import CompleteEnv
         env = CompleteEnv()
@@ -291,7 +430,7 @@ def replay(rec):
     A = {n: (a.real if n[-2:-1] == "c" or n in ("alpha", "angles") else a.astype(complex)) for n, a in A.items()}
     nr = NumRec()
     try:
-        (soc_obligations if "nspin" in spec else obligations)(nr, spec, A, KREPLAY[:spec["nk"]], np)
+        pick(spec)[1](nr, spec, A, KREPLAY[:spec["nk"]], np)
     except Exception as e:
         tb = traceback.format_exc()
         if "wannierberri" in tb.split("obligations")[-1]:
